@@ -35,12 +35,12 @@ theorem putU32le_combine (a b c d : UInt8) :
     putU32le (a.toUInt32 ||| (b.toUInt32 <<< 8) ||| (c.toUInt32 <<< 16) ||| (d.toUInt32 <<< 24)) =
       [a, b, c, d] := by
   simp only [putU32le, List.cons.injEq, and_true]
-  refine ⟨?_, ?_, ?_, ?_⟩ <;> bv_decide
+  refine ⟨?_, ?_, ?_, ?_⟩ <;> bv_decide (timeout := 300)
 
 theorem putU16le_combine (a b : UInt8) :
     putU16le (a.toUInt16 ||| (b.toUInt16 <<< 8)) = [a, b] := by
   simp only [putU16le, List.cons.injEq, and_true]
-  refine ⟨?_, ?_⟩ <;> bv_decide
+  refine ⟨?_, ?_⟩ <;> bv_decide (timeout := 300)
 
 theorem flatMap_putU32le_f32sOf (raw : Bytes) (h : raw.length % 4 = 0) :
     (f32sOf raw).flatMap putU32le = raw := by
